@@ -92,6 +92,7 @@ def runBin : List String → String
   | "slab-enc" :: toks => Slab.run ("slab-enc" :: toks)
   | "slab-view" :: toks => Slab.run ("slab-view" :: toks)
   | "slab-mm" :: toks => Slab.run ("slab-mm" :: toks)
+  | "cr-enc" :: toks => Slab.runCR toks
   | "uamiv-write" :: toks =>
     match parseWriteIn toks with
     | some i => "ok " ++ showWords (writerContent i).encode
